@@ -21,8 +21,14 @@ import (
 	"go/types"
 	"os"
 	"sort"
+	"strings"
+
+	"bytes"
+	"crypto/sha256"
 
 	"github.com/gopherjs/gopherjs/compiler/internal/dce"
+	"github.com/gopherjs/gopherjs/compiler/prelude"
+	"github.com/gopherjs/gopherjs/internal/sourcemapx"
 	"github.com/gopherjs/gopherjs/compiler/internal/typeparams"
 	"github.com/gopherjs/gopherjs/compiler/sources"
 )
@@ -321,13 +327,83 @@ func runCollector(c collCase) (res collResult) {
 	return res
 }
 
+// ---------------------------------------------------------------- prelude through Filter.WriteJS
+
+type preludeResult struct {
+	Name     string   `json:"name"`
+	Minify   bool     `json:"minify"`
+	Runs     int      `json:"runs"`
+	Hashes   []string `json:"hashes"` // distinct sha256 of (code, map), first seen first
+	Counts   []int    `json:"counts"`
+	DiffA    string   `json:"diff_a,omitempty"` // around the first differing byte of the first two distinct outputs
+	DiffB    string   `json:"diff_b,omitempty"`
+	DiffAt   int      `json:"diff_at,omitempty"`
+	CodeSize int      `json:"code_size"`
+}
+
+// runPreludes pushes every real prelude file n times through the real sourcemapx.Filter.WriteJS
+// (esbuild transform, with mapping enabled as in WriteCommandPackage) in fresh Filters.
+func runPreludes(n int) []preludeResult {
+	out := []preludeResult{}
+	for _, minify := range []bool{false, true} {
+		for _, pf := range prelude.PreludeFiles() {
+			r := preludeResult{Name: pf.Name[strings.LastIndex(pf.Name, "/")+1:], Minify: minify, Runs: n}
+			var first, firstCode []byte
+			idx := map[string]int{}
+			for k := 0; k < n; k++ {
+				code := &bytes.Buffer{}
+				f := &sourcemapx.Filter{Writer: code}
+				f.EnableMapping("out.js", "/goroot", "/gopath", false)
+				if _, err := f.WriteJS(pf.Source, pf.Name, minify); err != nil {
+					panic(err)
+				}
+				mp := &bytes.Buffer{}
+				f.WriteMappingTo(mp)
+				all := append(append([]byte{}, code.Bytes()...), mp.Bytes()...)
+				h := fmt.Sprintf("%x", sha256.Sum256(all))
+				if i, ok := idx[h]; ok {
+					r.Counts[i]++
+					continue
+				}
+				idx[h] = len(r.Hashes)
+				r.Hashes = append(r.Hashes, h)
+				r.Counts = append(r.Counts, 1)
+				if first == nil {
+					first, firstCode = all, code.Bytes()
+					r.CodeSize = len(firstCode)
+				} else if r.DiffA == "" {
+					at := 0
+					for at < len(first) && at < len(all) && first[at] == all[at] {
+						at++
+					}
+					lo, hiA, hiB := at-80, at+80, at+80
+					if lo < 0 {
+						lo = 0
+					}
+					if hiA > len(first) {
+						hiA = len(first)
+					}
+					if hiB > len(all) {
+						hiB = len(all)
+					}
+					r.DiffAt, r.DiffA, r.DiffB = at, string(first[lo:hiA]), string(all[lo:hiB])
+				}
+			}
+			out = append(out, r)
+		}
+	}
+	return out
+}
+
 type input struct {
 	Sorts      []sortCase `json:"sorts"`
 	Collectors []collCase `json:"collectors"`
+	Preludes   int        `json:"preludes"` // number of repetitions per prelude file and mode (0 = skip)
 }
 type output struct {
-	Sorts      []sortResult `json:"sorts"`
-	Collectors []collResult `json:"collectors"`
+	Sorts      []sortResult    `json:"sorts"`
+	Collectors []collResult    `json:"collectors"`
+	Preludes   []preludeResult `json:"preludes"`
 }
 
 func main() {
@@ -342,6 +418,9 @@ func main() {
 	}
 	for _, c := range in.Collectors {
 		out.Collectors = append(out.Collectors, runCollector(c))
+	}
+	if in.Preludes > 0 {
+		out.Preludes = runPreludes(in.Preludes)
 	}
 	if err := json.NewEncoder(os.Stdout).Encode(out); err != nil {
 		fmt.Fprintln(os.Stderr, err)
